@@ -113,3 +113,14 @@ Example C05_nonvacuous :
   /\ j_sout (jr (final cfgS w_acceptor h_c05_good)) = 6.
 Proof. exact c05_good_in_scope. Qed.
 Print Assumptions C05_nonvacuous.
+
+(* R6a: a journaled application message carrying 43=N / 122 is replayed with 43=Y and 122 = its original SendingTime *)
+Example C05_replay_overwrites_possdup :
+  let l := run cfgS w_acceptor [i_logon 1; o_app_pdn; i_resend 2 2 0] in
+  map (fun wm => (get T34 (mtags wm), get T43 (mtags wm), get T122 (mtags wm))) (wires (trace l))
+  = [(Some (S "1"), None, None); (Some (S "2"), Some (S "N"), Some (S "OLD"));
+     (Some (S "2"), Some (S "Y"), Some (c_time cfgS))]
+  /\ st (final cfgS w_acceptor [i_logon 1; o_app_pdn; i_resend 2 2 0]) = ST_ACTIVE
+  /\ new_numbers (trace l) = [S "1"; S "2"].
+Proof. exact replay_overwrites_possdup. Qed.
+Print Assumptions C05_replay_overwrites_possdup.
